@@ -11,6 +11,15 @@ use crate::util::le32;
 use crate::world::*;
 use std::collections::BTreeSet;
 
+/// One violation per signature and oracle call is enough (a medium that exposes garbage yields thousands of problems per
+/// image, each with a copy of the history).
+fn push_u(out: &mut Vec<Violation>, v: Violation) {
+    if !out.iter().any(|x| x.sig == v.sig) {
+        out.push(v);
+    }
+}
+
+
 // ---------------------------------------------------------------------------
 // Scenario family
 // ---------------------------------------------------------------------------
@@ -308,7 +317,7 @@ impl Oracle for Fsck {
         for p in &vpost.tree.problems {
             if !ppre.contains(&(p.kind.clone(), p.detail.clone())) {
                 let okk = if st.res.is_ok() { "ok" } else { "err" };
-                out.push(viol("C03", format!("fsck/{}@{}/{}", p.kind, st.op.kind(), okk), format!("after {} -> {}: {}", st.op.show(), st.res.class(), p.detail), sc, hist));
+                push_u(out, viol("C03", format!("fsck/{}@{}/{}", p.kind, st.op.kind(), okk), format!("after {} -> {}: {}", st.op.show(), st.res.class(), p.detail), sc, hist));
             }
         }
     }
@@ -332,7 +341,7 @@ impl Oracle for Fsck {
         let raw = problem_set(&view(vc(sc), &w.disk.image()));
         for p in &v.tree.problems {
             if !raw.contains(&(p.kind.clone(), p.detail.clone())) {
-                out.push(viol("C03", format!("fsck-flushed/{}", p.kind), format!("after flushing every open file: {}", p.detail), sc, hist));
+                push_u(out, viol("C03", format!("fsck-flushed/{}", p.kind), format!("after flushing every open file: {}", p.detail), sc, hist));
             }
         }
     }
@@ -353,7 +362,7 @@ impl Oracle for WriteBounds {
         if writes.is_empty() {
             return;
         }
-        let mut push = |sig: String, detail: String| out.push(viol("C04", format!("{}@{}", sig, st.op.kind()), format!("{} -> {}: {}", st.op.show(), st.res.class(), detail), sc, hist));
+        let mut push = |sig: String, detail: String| push_u(out, viol("C04", format!("{}@{}", sig, st.op.kind()), format!("{} -> {}: {}", st.op.show(), st.res.class(), detail), sc, hist));
         let fat_lo = v.lba + v.reserved;
         let fat_hi = fat_lo + v.nfats * v.fatsz;
         let root_lo = v.lba + v.root_start;
@@ -541,7 +550,7 @@ impl Oracle for Space {
                     let holds_cluster_while_empty = len == 0 && got == want + cb;
                     if got != want && !holds_cluster_while_empty {
                         let dir = if got > want { "more-than-capacity" } else { "less-than-capacity" };
-                        out.push(viol(
+                        push_u(out, viol(
                             "C05",
                             format!("capacity/{}@fill", dir),
                             format!("{} free clusters of {} bytes and {} bytes of room in the last cluster: {} bytes should fit, {} were accepted before {:?}", vpre.free(vcx), cb, room, want, got, e),
@@ -565,7 +574,7 @@ impl Oracle for Space {
                         let need_end = h.off as u64 + n as u64;
                         let fits = need_end <= cap_now + vpre.free(vcx) as u64 * cb;
                         if fits {
-                            out.push(viol(
+                            push_u(out, viol(
                                 "C05",
                                 "capacity/write-refused-although-it-fits@write".into(),
                                 format!("write of {} at offset {} (length {}) refused with {:?} although {} clusters are free", n, h.off, len, e, vpre.free(vcx)),
@@ -598,7 +607,7 @@ impl Oracle for Space {
                         let is_mkdir = matches!(st.op, Op::Mkdir { .. });
                         let room = if is_mkdir { (has_free_slot && free >= 1) || (growable && free >= 2) } else { has_free_slot || (growable && free >= 1) };
                         if room {
-                            out.push(viol(
+                            push_u(out, viol(
                                 "C05",
                                 format!("capacity/refused-although-there-is-room@{}", st.op.kind()),
                                 format!("{} -> Err({:?}) although the directory {} and {} clusters are free", st.op.show(), e, if has_free_slot { "has a free slot" } else { "can grow" }, free),
@@ -630,7 +639,7 @@ impl Oracle for Space {
         let new: Vec<u32> = lost_post.iter().filter(|c| !lost_pre.contains(c)).cloned().collect();
         if !new.is_empty() {
             let okk = if st.res.is_ok() { "ok" } else { "err" };
-            out.push(viol(
+            push_u(out, viol(
                 "C05",
                 format!("leak/clusters-in-use-but-unreferenced@{}/{}", st.op.kind(), okk),
                 format!("{} -> {}: clusters {:?} are marked in use but belong to no file or directory (no file is open)", st.op.show(), st.res.class(), &new[..new.len().min(8)]),
@@ -663,7 +672,7 @@ impl Oracle for FatCopies {
             if let Some(s) = differs(post) {
                 if differs(pre).is_none() {
                     let okk = if st.res.is_ok() { "ok" } else { "err" };
-                    out.push(viol("C16", format!("fat-copies-differ@{}/{}", st.op.kind(), okk), format!("{} -> {}: FAT sector {} differs between the two copies", st.op.show(), st.res.class(), s), sc, hist));
+                    push_u(out, viol("C16", format!("fat-copies-differ@{}/{}", st.op.kind(), okk), format!("{} -> {}: FAT sector {} differs between the two copies", st.op.show(), st.res.class(), s), sc, hist));
                 }
             }
         }
@@ -683,7 +692,7 @@ impl Oracle for FatCopies {
         let scan1 = refat::count_free(&vcx.fat(post, 0), v) as i64;
         if free0 == 0xFFFF_FFFF {
             if free1 != 0xFFFF_FFFF {
-                out.push(viol("C16", format!("fsinfo/unknown-count-became-known@{}", st.op.kind()), format!("free count was unknown at mount, now {}", free1), sc, hist));
+                push_u(out, viol("C16", format!("fsinfo/unknown-count-became-known@{}", st.op.kind()), format!("free count was unknown at mount, now {}", free1), sc, hist));
             }
         } else {
             let want = free0 as i64 + (scan1 - scan0);
@@ -694,7 +703,7 @@ impl Oracle for FatCopies {
                 let wrote_any = st.log.iter().any(|c| c.write);
                 let pre_free = le32(&pre.rd(info_blk), 488);
                 if wrote_info || wrote_any || pre_free != free1 || matches!(st.op, Op::CloseVol { .. }) {
-                    out.push(viol(
+                    push_u(out, viol(
                         "C16",
                         format!("fsinfo/free-count-delta-wrong@{}", st.op.kind()),
                         format!("free count at mount {} (scan {}), now {} (scan {}): expected {}", free0, scan0, free1, scan1, want),
@@ -709,7 +718,7 @@ impl Oracle for FatCopies {
             let wrote_any = st.log.iter().any(|c| c.write);
             // (with the count unknown as well the crate never touches the sector, and what was there at mount stays)
             if wrote_info || ((wrote_any || matches!(st.op, Op::CloseVol { .. })) && free0 != 0xFFFF_FFFF) {
-                out.push(viol(
+                push_u(out, viol(
                     "C16",
                     format!("fsinfo/next-free-hint-out-of-range@{}", st.op.kind()),
                     format!("next-free hint written as {} (was {} at mount); volume has clusters 2..{}", next1, next0, v.clusters + 1),
@@ -730,7 +739,7 @@ impl Oracle for StaleTwin {
             return;
         }
         if let Res::Panic(m) = &st.res {
-            out.push(viol("C16", format!("stale-record/panic@{}", st.op.kind()), format!("{}: {}", st.op.show(), m), sc, hist));
+            push_u(out, viol("C16", format!("stale-record/panic@{}", st.op.kind()), format!("{}: {}", st.op.show(), m), sc, hist));
         }
     }
 }
@@ -741,7 +750,7 @@ pub fn twin_compare(sc_stale: &Scenario, sc_good: &Scenario, hist: &[Op], st: &S
         return; // the twin itself panicked earlier: reported by the twin's own exploration
     }
     if st.res.class() != st2.res.class() {
-        out.push(viol(
+        push_u(out, viol(
             "C16",
             format!("stale-record/result-differs-from-correct-record@{}", st.op.kind()),
             format!("{} -> {} with the stale record, {} with a correct one", st.op.show(), st.res.class(), st2.res.class()),
@@ -789,7 +798,7 @@ fn check_tree_against_model(prop: &'static str, sc: &Scenario, hist: &[Op], w: &
     let dump = match dump {
         Ok(d) => Some(d),
         Err(e) => {
-            out.push(viol(prop, format!("remount/crate-cannot-read-medium@{}", st.op.kind()), format!("{}: fresh mount by the crate failed: {}", what, e), sc, hist));
+            push_u(out, viol(prop, format!("remount/crate-cannot-read-medium@{}", st.op.kind()), format!("{}: fresh mount by the crate failed: {}", what, e), sc, hist));
             None
         }
     };
@@ -805,19 +814,19 @@ fn check_tree_against_model(prop: &'static str, sc: &Scenario, hist: &[Op], w: &
                         Some(x) if x.is_dir => {
                             if let Ts::Tick(_) = sub.ctime {
                                 if refat::decode_ts(x.ent.cdate, x.ent.ctime) != sub.ctime.tuple() {
-                                    out.push(viol(prop, format!("durable/dir-ctime@{}", st.op.kind()), format!("{}: {} ctime on medium {:?}, expected {:?}", what, p, refat::decode_ts(x.ent.cdate, x.ent.ctime), sub.ctime.tuple()), sc, hist));
+                                    push_u(out, viol(prop, format!("durable/dir-ctime@{}", st.op.kind()), format!("{}: {} ctime on medium {:?}, expected {:?}", what, p, refat::decode_ts(x.ent.cdate, x.ent.ctime), sub.ctime.tuple()), sc, hist));
                                 }
                             } else if let Some(b) = base_view.tree.find(&p) {
                                 if b.ent.raw != x.ent.raw {
-                                    out.push(viol(prop, format!("untouched/dir-entry-changed@{}", st.op.kind()), format!("{}: entry of directory {} changed", what, p), sc, hist));
+                                    push_u(out, viol(prop, format!("untouched/dir-entry-changed@{}", st.op.kind()), format!("{}: entry of directory {} changed", what, p), sc, hist));
                                 }
                             }
                         }
-                        _ => out.push(viol(prop, format!("durable/dir-missing@{}", st.op.kind()), format!("{}: independent reader does not find directory {}", what, p), sc, hist)),
+                        _ => push_u(out, viol(prop, format!("durable/dir-missing@{}", st.op.kind()), format!("{}: independent reader does not find directory {}", what, p), sc, hist)),
                     }
                     if let Some(dm) = &dump {
                         if !dm.get(&p).map(|s| s.is_dir).unwrap_or(false) {
-                            out.push(viol(prop, format!("durable/dir-missing-in-crate-remount@{}", st.op.kind()), format!("{}: fresh mount by the crate does not list directory {}", what, p), sc, hist));
+                            push_u(out, viol(prop, format!("durable/dir-missing-in-crate-remount@{}", st.op.kind()), format!("{}: fresh mount by the crate does not list directory {}", what, p), sc, hist));
                         }
                     }
                     stack.push((p, sub));
@@ -831,12 +840,12 @@ fn check_tree_against_model(prop: &'static str, sc: &Scenario, hist: &[Op], w: &
                         match (base_view.tree.find(&p), vw.tree.find(&p)) {
                             (Some(b), Some(x)) => {
                                 if b.ent.raw != x.ent.raw {
-                                    out.push(viol(prop, format!("untouched/entry-changed@{}", st.op.kind()), format!("{}: directory entry of untouched file {} changed", what, p), sc, hist));
+                                    push_u(out, viol(prop, format!("untouched/entry-changed@{}", st.op.kind()), format!("{}: directory entry of untouched file {} changed", what, p), sc, hist));
                                 } else if refat::file_bytes(img, &vcx.vol, x) != f.data {
-                                    out.push(viol(prop, format!("untouched/contents-changed@{}", st.op.kind()), format!("{}: contents of untouched file {} changed", what, p), sc, hist));
+                                    push_u(out, viol(prop, format!("untouched/contents-changed@{}", st.op.kind()), format!("{}: contents of untouched file {} changed", what, p), sc, hist));
                                 }
                             }
-                            _ => out.push(viol(prop, format!("untouched/missing@{}", st.op.kind()), format!("{}: untouched file {} is gone", what, p), sc, hist)),
+                            _ => push_u(out, viol(prop, format!("untouched/missing@{}", st.op.kind()), format!("{}: untouched file {} is gone", what, p), sc, hist)),
                         }
                         continue;
                     }
@@ -846,35 +855,35 @@ fn check_tree_against_model(prop: &'static str, sc: &Scenario, hist: &[Op], w: &
                         Some(x) if !x.is_dir => {
                             let bytes = refat::file_bytes(img, &vcx.vol, x);
                             if x.ent.size as usize != dur.len() {
-                                out.push(viol(prop, format!("durable/length@{}", st.op.kind()), format!("{}: {} has size {} on the medium, flushed length is {}", what, p, x.ent.size, dur.len()), sc, hist));
+                                push_u(out, viol(prop, format!("durable/length@{}", st.op.kind()), format!("{}: {} has size {} on the medium, flushed length is {}", what, p, x.ent.size, dur.len()), sc, hist));
                             } else if &bytes != dur {
                                 let first = bytes.iter().zip(dur.iter()).position(|(a, b)| a != b);
-                                out.push(viol(prop, format!("durable/contents@{}", st.op.kind()), format!("{}: {} differs from the flushed contents at byte {:?}", what, p, first), sc, hist));
+                                push_u(out, viol(prop, format!("durable/contents@{}", st.op.kind()), format!("{}: {} differs from the flushed contents at byte {:?}", what, p, first), sc, hist));
                             }
                             if refat::decode_ts(x.ent.cdate, x.ent.ctime) != f.ctime.tuple() {
-                                out.push(viol(prop, format!("durable/ctime@{}", st.op.kind()), format!("{}: {} creation time {:?}, expected {:?}", what, p, refat::decode_ts(x.ent.cdate, x.ent.ctime), f.ctime.tuple()), sc, hist));
+                                push_u(out, viol(prop, format!("durable/ctime@{}", st.op.kind()), format!("{}: {} creation time {:?}, expected {:?}", what, p, refat::decode_ts(x.ent.cdate, x.ent.ctime), f.ctime.tuple()), sc, hist));
                             }
                             if refat::decode_ts(x.ent.wdate, x.ent.wtime) != f.mtime.tuple() {
-                                out.push(viol(prop, format!("durable/mtime@{}", st.op.kind()), format!("{}: {} modification time {:?}, expected {:?} (clock of the last write)", what, p, refat::decode_ts(x.ent.wdate, x.ent.wtime), f.mtime.tuple()), sc, hist));
+                                push_u(out, viol(prop, format!("durable/mtime@{}", st.op.kind()), format!("{}: {} modification time {:?}, expected {:?} (clock of the last write)", what, p, refat::decode_ts(x.ent.wdate, x.ent.wtime), f.mtime.tuple()), sc, hist));
                             }
                             if x.ent.attr & 0x10 != 0 {
-                                out.push(viol(prop, format!("durable/attribute@{}", st.op.kind()), format!("{}: {} carries the directory attribute", what, p), sc, hist));
+                                push_u(out, viol(prop, format!("durable/attribute@{}", st.op.kind()), format!("{}: {} carries the directory attribute", what, p), sc, hist));
                             }
                         }
-                        _ => out.push(viol(prop, format!("durable/file-missing@{}", st.op.kind()), format!("{}: independent reader does not find flushed file {}", what, p), sc, hist)),
+                        _ => push_u(out, viol(prop, format!("durable/file-missing@{}", st.op.kind()), format!("{}: independent reader does not find flushed file {}", what, p), sc, hist)),
                     }
                     // the crate itself, freshly mounted
                     if let Some(dm) = &dump {
                         match dm.get(&p) {
                             Some(s) if !s.is_dir => {
                                 if s.data.as_ref() != Some(dur) {
-                                    out.push(viol(prop, format!("durable/contents-in-crate-remount@{}", st.op.kind()), format!("{}: fresh mount by the crate reads {} bytes for {}, flushed {}", what, s.data.as_ref().map(|d| d.len()).unwrap_or(0), p, dur.len()), sc, hist));
+                                    push_u(out, viol(prop, format!("durable/contents-in-crate-remount@{}", st.op.kind()), format!("{}: fresh mount by the crate reads {} bytes for {}, flushed {}", what, s.data.as_ref().map(|d| d.len()).unwrap_or(0), p, dur.len()), sc, hist));
                                 }
                                 if s.ent.ctime != f.ctime.tuple() || s.ent.mtime != f.mtime.tuple() {
-                                    out.push(viol(prop, format!("durable/times-in-crate-remount@{}", st.op.kind()), format!("{}: {} ctime {:?} mtime {:?}, expected {:?} {:?}", what, p, s.ent.ctime, s.ent.mtime, f.ctime.tuple(), f.mtime.tuple()), sc, hist));
+                                    push_u(out, viol(prop, format!("durable/times-in-crate-remount@{}", st.op.kind()), format!("{}: {} ctime {:?} mtime {:?}, expected {:?} {:?}", what, p, s.ent.ctime, s.ent.mtime, f.ctime.tuple(), f.mtime.tuple()), sc, hist));
                                 }
                             }
-                            _ => out.push(viol(prop, format!("durable/file-missing-in-crate-remount@{}", st.op.kind()), format!("{}: fresh mount by the crate does not list {}", what, p), sc, hist)),
+                            _ => push_u(out, viol(prop, format!("durable/file-missing-in-crate-remount@{}", st.op.kind()), format!("{}: fresh mount by the crate does not list {}", what, p), sc, hist)),
                         }
                     }
                 }
@@ -905,6 +914,11 @@ fn fs_scenarios(tier: &str, prefix: &'static str, alphabet: Alpha, moving_clock:
     let frees: &[Option<usize>] = if quick { &[None, Some(1)] } else { &[None, Some(3), Some(2), Some(1), Some(0)] };
     for &k in kinds {
         for &fr in frees {
+            if quick && prefix == "durable" && k == VolKind::V32b && fr.is_some() {
+                // (the remount oracle on a nearly-full 4-blocks-per-cluster FAT32 volume costs a quarter of C02's quick
+                // budget; V32a covers nearly-full FAT32, V32b the multi-block clusters)
+                continue;
+            }
             let qd = 4;
             let mut o = base_opts(k, fr, if quick { qd } else { qd + 1 }, alphabet);
             o.moving_clock = moving_clock;
@@ -1104,21 +1118,41 @@ pub fn c02_def() -> HistProp {
 pub static CRASH_IMAGES: std::sync::atomic::AtomicU64 = std::sync::atomic::AtomicU64::new(0);
 pub static CRASH_TRANSITIONS: std::sync::atomic::AtomicU64 = std::sync::atomic::AtomicU64::new(0);
 
-pub fn crash_images(st: &Step) -> Vec<(usize, Image)> {
-    let mut out = Vec::new();
-    let Some(pre) = &st.pre else { return out };
-    let mut cur = pre.clone();
-    let mut k = 0;
-    for c in st.log.iter().filter(|c| c.write && c.ok) {
-        cur.put(c.idx, c.data.as_ref().unwrap());
-        k += 1;
-        out.push((k, cur.clone()));
+/// The crash images of a transition, produced one at a time (a transition with thousands of writes must not hold
+/// thousands of copies of the medium at once).
+pub struct CrashImages<'a> {
+    cur: Option<Image>,
+    writes: Vec<&'a crate::simdisk::Call>,
+    next: usize,
+}
+
+impl<'a> CrashImages<'a> {
+    pub fn len(&self) -> usize {
+        self.writes.len()
     }
-    if !out.is_empty() {
-        CRASH_IMAGES.fetch_add(out.len() as u64, std::sync::atomic::Ordering::Relaxed);
+    pub fn is_empty(&self) -> bool {
+        self.writes.is_empty()
+    }
+}
+
+impl<'a> Iterator for CrashImages<'a> {
+    type Item = (usize, Image);
+    fn next(&mut self) -> Option<(usize, Image)> {
+        let c = *self.writes.get(self.next)?;
+        let cur = self.cur.as_mut()?;
+        cur.put(c.idx, c.data.as_ref().unwrap());
+        self.next += 1;
+        Some((self.next, cur.clone()))
+    }
+}
+
+pub fn crash_images(st: &Step) -> CrashImages<'_> {
+    let writes: Vec<&crate::simdisk::Call> = if st.pre.is_some() { st.log.iter().filter(|c| c.write && c.ok).collect() } else { Vec::new() };
+    if !writes.is_empty() {
+        CRASH_IMAGES.fetch_add(writes.len() as u64, std::sync::atomic::Ordering::Relaxed);
         CRASH_TRANSITIONS.fetch_add(1, std::sync::atomic::Ordering::Relaxed);
     }
-    out
+    CrashImages { cur: st.pre.clone(), writes, next: 0 }
 }
 
 pub struct CrashConsistency;
@@ -1148,10 +1182,13 @@ impl Oracle for CrashConsistency {
         let ppre = problem_set(&view(vcx, pre));
         let n = imgs.len();
         for (k, img) in imgs {
+            if crate::engine::past_deadline() {
+                break;
+            }
             let vw = view(vcx, &img);
             for p in &vw.tree.problems {
                 if C10_KINDS.contains(&p.kind.as_str()) && !ppre.contains(&(p.kind.clone(), p.detail.clone())) {
-                    out.push(viol(
+                    push_u(out, viol(
                         "C10",
                         format!("crash/{}@{}", p.kind, st.op.kind()),
                         format!("power cut after write {} of {} of {}: {}", k, n, st.op.show(), p.detail),
@@ -1164,7 +1201,7 @@ impl Oracle for CrashConsistency {
             if let Err(e) = crate::medium::remount_list(&img, vcx.slot) {
                 // only if the pre-image was fine
                 if crate::medium::remount_list(pre, vcx.slot).is_ok() {
-                    out.push(viol(
+                    push_u(out, viol(
                         "C10",
                         format!("crash/crate-cannot-list-medium@{}", st.op.kind()),
                         format!("power cut after write {} of {} of {}: fresh mount: {}", k, n, st.op.show(), e),
@@ -1190,7 +1227,7 @@ impl Oracle for CrashDurability {
         // flushed files) must survive as well: no write may land there
         for c in st.log.iter().filter(|c| c.write && c.ok) {
             if c.idx < vcx.vol.lba || c.idx >= vcx.vol.lba.saturating_add(vcx.vol.total) {
-                out.push(viol("C09", format!("crash-durability/write-outside-the-volume@{}", st.op.kind()), format!("{}: block {} written; the volume is [{}, {}) - flushed data of whatever lies there is overwritten", st.op.show(), c.idx, vcx.vol.lba, vcx.vol.lba + vcx.vol.total), sc, hist));
+                push_u(out, viol("C09", format!("crash-durability/write-outside-the-volume@{}", st.op.kind()), format!("{}: block {} written; the volume is [{}, {}) - flushed data of whatever lies there is overwritten", st.op.show(), c.idx, vcx.vol.lba, vcx.vol.lba + vcx.vol.total), sc, hist));
                 break;
             }
         }
@@ -1220,6 +1257,9 @@ impl Oracle for CrashDurability {
         }
         let n = imgs.len();
         for (k, img) in imgs {
+            if crate::engine::past_deadline() {
+                break;
+            }
             let vw = view(vcx, &img);
             let dump = remount_dump(&img, vcx.slot);
             for (p, data) in &flushed {
@@ -1228,16 +1268,16 @@ impl Oracle for CrashDurability {
                     Some(x) if !x.is_dir && x.ent.size as usize >= data.len() => {
                         let bytes = refat::read_chain_bytes(&img, &vcx.vol, &x.chain, data.len() as u32);
                         if &bytes != data {
-                            out.push(viol("C09", format!("crash-durability/contents@{}", st.op.kind()), format!("{}: flushed file {} no longer holds its flushed contents", what, p), sc, hist));
+                            push_u(out, viol("C09", format!("crash-durability/contents@{}", st.op.kind()), format!("{}: flushed file {} no longer holds its flushed contents", what, p), sc, hist));
                         }
                     }
-                    Some(x) if !x.is_dir => out.push(viol("C09", format!("crash-durability/shorter@{}", st.op.kind()), format!("{}: flushed file {} has size {} < flushed length {}", what, p, x.ent.size, data.len()), sc, hist)),
-                    _ => out.push(viol("C09", format!("crash-durability/missing@{}", st.op.kind()), format!("{}: flushed file {} is gone", what, p), sc, hist)),
+                    Some(x) if !x.is_dir => push_u(out, viol("C09", format!("crash-durability/shorter@{}", st.op.kind()), format!("{}: flushed file {} has size {} < flushed length {}", what, p, x.ent.size, data.len()), sc, hist)),
+                    _ => push_u(out, viol("C09", format!("crash-durability/missing@{}", st.op.kind()), format!("{}: flushed file {} is gone", what, p), sc, hist)),
                 }
                 match &dump {
                     Ok(dm) => match dm.get(p) {
                         Some(s) if s.data.as_ref().map(|d| d.len() >= data.len() && d[..data.len()] == data[..]).unwrap_or(false) => {}
-                        other => out.push(viol(
+                        other => push_u(out, viol(
                             "C09",
                             format!("crash-durability/crate-remount@{}", st.op.kind()),
                             format!("{}: fresh mount by the crate shows {} as {:?} bytes, flushed {}", what, p, other.and_then(|s| s.data.as_ref().map(|d| d.len())), data.len()),
@@ -1245,7 +1285,7 @@ impl Oracle for CrashDurability {
                             hist,
                         )),
                     },
-                    Err(e) => out.push(viol("C09", format!("crash-durability/crate-cannot-read-medium@{}", st.op.kind()), format!("{}: {}", what, e), sc, hist)),
+                    Err(e) => push_u(out, viol("C09", format!("crash-durability/crate-cannot-read-medium@{}", st.op.kind()), format!("{}: {}", what, e), sc, hist)),
                 }
             }
         }
